@@ -4,6 +4,7 @@
 //! Sub-commands (each prints ndjson on stdout; exit 0 unless the tool itself failed):
 //!   replay <module> <behaviours.ndjson> [opts]   spec -> code
 //!   record <module> <out.ndjson> [opts]          code -> spec (trace for TLC)
+mod authz;
 mod cfgcenter;
 mod codec;
 mod logfile;
@@ -37,6 +38,7 @@ fn main() {
         ("record", "seqgroup") => seq::record_seqgroup(&args[3..]),
         ("record", "seqnode") => seq::record_seqnode(&args[3..]),
         ("replay", "ownership") => ownership::replay(&args[3..]),
+        ("authz", _) => authz::main_authz(&args[2..]),
         ("replay", "meta") => meta::replay(&args[3..]),
         ("node", "run") => node::main_node(&args[3..]),
         _ => Err(anyhow::anyhow!("unknown command {} {}", args[1], args[2])),
